@@ -91,6 +91,31 @@ def run_tlc(d, module, cfg_text, env=None, workers=4, heap="3g", timeout=900, ta
     return lines, time.time() - t0
 
 
+TLAPM_STDLIB = "/opt/veriftools/tlapm/lib/tlapm/stdlib"
+
+
+def run_tlapm(d, module, timeout=900, threads=8):
+    """Check the TLAPS proofs of `module` (in d/spec) from scratch. Returns (obligations, seconds).
+    Raises ToolFailure unless every obligation is proved."""
+    sp = os.path.join(d, "spec")
+    shutil.copy(os.path.join(TLAPM_STDLIB, "TLAPS.tla"), sp)
+    shutil.rmtree(os.path.join(sp, ".tlacache"), ignore_errors=True)
+    t0 = time.time()
+    try:
+        p = subprocess.run(["tlapm", "--threads", str(threads), module + ".tla"], cwd=sp, stdout=subprocess.PIPE, stderr=subprocess.STDOUT,
+                           timeout=timeout, text=True)
+    except subprocess.TimeoutExpired:
+        raise ToolFailure("tlapm timed out after %ds on %s" % (timeout, module))
+    finally:
+        shutil.rmtree(os.path.join(sp, ".tlacache"), ignore_errors=True)
+    with open(os.path.join(d, "tlapm_" + module + ".log"), "w") as f:
+        f.write(p.stdout)
+    m = re.search(r"All (\d+) obligations? proved", p.stdout)
+    if p.returncode != 0 or not m:
+        raise ToolFailure("tlapm did not prove every obligation of %s:\n%s" % (module, p.stdout[-2500:]))
+    return int(m.group(1)), time.time() - t0
+
+
 def tlc_stats(lines):
     st = {"generated": 0, "distinct": 0, "depth": 0}
     for l in lines:
